@@ -585,8 +585,7 @@ pub fn run(c: &mut Ctx) {
                 (n, errors)
             });
             c.count("call:StrftimeItems::next (drain)");
-            let composite = ["%c", "%r", "%D", "%F", "%T", "%v", "%x", "%X", "%R", "%+"].iter().any(|k| fmt.contains(k))
-                || fmt.contains("%-") || fmt.contains("%_") || fmt.contains("%0");
+            let composite = ["%c", "%r", "%D", "%F", "%T", "%v", "%x", "%X", "%R"].iter().any(|k| fmt.contains(k));
             match r {
                 Ok((n, _)) if n > cap => {
                     if composite {
